@@ -521,8 +521,21 @@ structure Files where
   wc : String
 deriving Repr, DecidableEq
 
+def digitChar (d : Nat) : Char := Char.ofNat (48 + d)
+
+/-- decimal digits of a natural number (`"%d"`) -/
+def showNat (n : Nat) : List Char :=
+  if h : n < 10 then [digitChar n] else showNat (n / 10) ++ [digitChar (n % 10)]
+termination_by n
+decreasing_by omega
+
+/-- `"%d" % x` -/
+def showInt : Int → List Char
+  | .ofNat n => showNat n
+  | .negSucc n => '-' :: showNat (n + 1)
+
 /-- `print_list(xs, name, "%d ")` -/
-def printInts (l : List Int) : String := String.join (l.map (fun x => toString x ++ " "))
+def printInts (l : List Int) : String := String.ofList (l.flatMap (fun x => showInt x ++ [' ']))
 
 /-- the three files `design()` writes -/
 def ssmFiles (a : Arrays) : Files :=
